@@ -170,7 +170,7 @@ static void check_timing(const DynCfg& c, vh::Rng& r) {
     if (c.at <= 0 || c.rt <= 0) {
         return;
     }
-    const std::string cfg = vh::fmt("Compressor(fs=%d, T=%.2f, R=%d, W=0, attack=%.4f s, release=%.4f s)", c.fs, c.T, c.R, c.at, c.rt);
+    const std::string cfg = vh::fmt("Compressor/Limiter(fs=%d, T=%.2f, R=%d, W=0, attack=%.4f s, release=%.4f s) fed in random frames", c.fs, c.T, c.R, c.at, c.rt);
     vh::begin_case("timing", "%s", cfg.c_str());
     const int na = int(c.fs * c.at), nr = int(c.fs * c.rt);
     const int N0 = 50, N1 = 12 * na + 100, N2 = 12 * nr + 100;
@@ -179,15 +179,33 @@ static void check_timing(const DynCfg& c, vh::Rng& r) {
     for (int i = 0; i < x.size(); ++i) {
         x[i] = (i < N0 || i >= N0 + N1) ? lo : hi;
     }
-    (void)r;
+    //the stream is fed in random frames: the time constants belong to the stream, not to one call
+    const bool use_limiter = r.coin();
     dl::Compressor p(c.fs, c.T, c.R, 0.0, c.at, c.rt);
-    const auto res = p.process(x);
+    dl::Limiter lim(c.fs, c.T, 0.0, c.at, c.rt);
+    arr_real gain_all;
+    {
+        int pos = 0;
+        while (pos < x.size()) {
+            const int len = std::min(x.size() - pos, int(r.range(1, std::max(2, (na + nr) / 3))));
+            arr_real fr(len);
+            for (int i = 0; i < len; ++i) {
+                fr[i] = x[pos + i];
+            }
+            if (use_limiter) {
+                gain_all |= lim.process(fr).gain;
+            } else {
+                gain_all |= p.process(fr).gain;
+            }
+            pos += len;
+        }
+    }
     vh::Hasher hh;
-    hh.s("timing").s(cfg);
+    hh.s("timing").s(cfg).i(use_limiter);
     vh::count(hh.get(), true);
     std::vector<ld> g(x.size());
     for (int i = 0; i < x.size(); ++i) {
-        g[i] = 20 * log10l(ld(res.gain[i]));
+        g[i] = 20 * log10l(ld(gain_all[i]));
     }
     auto measure = [&](int from, int to, const char* phase, int expected) {
         const ld g0 = (from > 0) ? g[from - 1] : 0;
@@ -328,7 +346,8 @@ int main(int argc, char** argv) {
             }
             vh::Rng r = vh::rng_for("agc", t);
             const double target = std::pow(10.0, r.uni(-2, 2));
-            const double indb = r.uni(-60, 20);
+            //a fifth of the runs need strong ATTENUATION (input far above the target): the required gain is far below max_gain
+            const double indb = (t % 5 == 4) ? r.uni(20, 60) : r.uni(-60, 20);
             const int avg = (t % 4 == 0) ? 1 : ((t % 4 == 1) ? 1000 : int(r.range(2, 999)));
             const double mg = (t % 3 == 0) ? r.uni(10, 40) : 60.0;
             check_agc(target, indb, avg, mg, (t % 2) == 0, r);
